@@ -13,8 +13,8 @@ code->spec : conformance (the transducers predict the exception class of every c
 from flow import Run, replay_file
 
 PROP = "C10"
-DST = ["md", "mdonly", "mdwrej", "fd", "fdodd", "wrej", "eof", "eofodd", "eofcancel", "ack", "poll", "tick", "cancel", "alien"]
-SRC = ["put", "putodd", "poll", "tick", "nak", "nakodd", "ack", "fin", "cancel", "cancelwrong", "alien"]
+DST = ["md", "mdonly", "mdwrej", "fd", "fdodd", "wrej", "eof", "eofodd", "eofcancel", "ack", "poll", "tick", "cancel", "reset", "alien"]
+SRC = ["put", "putodd", "poll", "tick", "nak", "nakodd", "ack", "fin", "cancel", "cancelwrong", "reset", "alien"]
 
 
 def run(tier: str, keep: bool = False) -> int:
@@ -28,6 +28,11 @@ def run(tier: str, keep: bool = False) -> int:
     r.solo("srcwide", "S", fam2, SRC, 3 if q else 4, ["C10"], pre=[["put", "putodd"]], limit=4000 if q else 150000)
     r.solo("srcdeep", "S", fam1, ["poll", "nak", "nakodd", "ack", "fin", "cancel", "tick", "alien"], 5 if q else 6, ["C10"],
            pre=[["put"], ["poll"], ["poll"]], limit=5000 if q else 150000)
+    # the public reset() in the middle of a transaction (queued PDUs, armed timers), then a new transaction on the same handler
+    r.solo("dstreset", "D", fam2, ["reset", "md", "fd", "eof", "poll", "tick"], 5 if q else 6, ["C10"], pre=[["md"], ["fd", "eof"]],
+           limit=3000 if q else 150000)
+    r.solo("srcreset", "S", fam2, ["reset", "put", "poll", "cancel", "nak", "tick"], 5 if q else 6, ["C10"], pre=[["put"], ["poll"]],
+           limit=3000 if q else 150000)
     n = 400 if q else 8000
     r.driver("src_random", n, ["C10"])
     r.driver("dst_random", n, ["C10"])
